@@ -395,7 +395,20 @@ def sweep_cases(draw):
                 c["opts"] = {"objective": calls[i - 1]["opts"]["objective"]}       # the same objective, none of the switches passed
             if alg == "cg" and draw(st.integers(0, 2)) == 0:
                 c["ticks"] = draw(st.integers(3, 60))
-    return {"kind": "history", "sweep": True, "inputs": [{"values": values, "pres": pres, "nseed": draw(st.integers(0, 5))}], "calls": calls}
+    inputs = [{"values": values, "pres": pres, "nseed": draw(st.integers(0, 5))}]
+    if draw(st.integers(0, 3)) == 0 and len(values) >= 3:
+        # a PERMUTED-INPUT sweep instead: the same call on the input and on a rearrangement of it, alternately - what a memo keyed by the
+        # multiset of values (and not by their order or their names) gets wrong
+        inputs.append(dict(inputs[0], values=list(draw(st.permutations(values)))))
+        for i, c in enumerate(calls):
+            c["param"] = calls[0]["param"]
+            if "opts" in calls[0]:
+                c["opts"] = calls[0]["opts"]
+            else:
+                c.pop("opts", None)
+            c.pop("ticks", None)
+            c["input"] = i % 2
+    return {"kind": "history", "sweep": True, "inputs": inputs, "calls": calls}
 
 
 MUTABLE_PRES = ("list", "array", "dict-str", "names")       # presentations whose item names do not depend on the values
